@@ -970,20 +970,26 @@ Definition rank_may (l : rankletter) (r : rank) : bool :=
 Definition mode_char (c : conn) (client target nick : str) (r : rank) (ch : N)
            (mode_set : bool) (args : list str) (m : mstate)
   : res (mstate * bool * list str) :=
-  let if_op := rk_is_operator r in
   let if_half := rk_is_half_operator r in
   let e482 := [err_chanoprivsneeded client target] in
+  let cls := classify_mode ch in
   (* privilege pre-check: emits 482, decides nothing *)
-  let m := if N.eqb ch 113 then (if r_founder r then m else ms_add_out e482 m)
-           else if N.eqb ch 97 then (if rk_is_protected r then m else ms_add_out e482 m)
-           else if N.eqb ch 111 || N.eqb ch 104 then (if if_op then m else ms_add_out e482 m)
-           else if in_chars ch "imtnslkv" then (if if_half then m else ms_add_out e482 m)
-           else m in
+  let m := match cls with
+           | MRankC => match rankletter_of ch with
+                       | Some rl => if rank_may rl r then m else ms_add_out e482 m
+                       | None => m
+                       end
+           | MFlagC | MLimitC | MKeyC => if if_half then m else ms_add_out e482 m
+           | _ => m
+           end in
   let sign := if mode_set then c_plus else c_minus in
-  if N.eqb ch c_plus then Ok (m, true, args)
-  else if N.eqb ch c_minus then Ok (m, false, args)
-  else match listletter_of ch with
-  | Some ll =>
+  match cls with
+  | MPlus => Ok (m, true, args)
+  | MMinus => Ok (m, false, args)
+  | MListC =>
+      match listletter_of ch with
+      | None => Ok (m, mode_set, args)
+      | Some ll =>
       match args with
       | mask :: args' =>
           if if_half then
@@ -1014,9 +1020,11 @@ Definition mode_char (c : conn) (client target nick : str) (r : rank) (ch : N)
             end in
           Ok (ms_add_out lines m, mode_set, [])
       end
-  | None =>
-  match rankletter_of ch with
-  | Some rl =>
+      end
+  | MRankC =>
+      match rankletter_of ch with
+      | None => Ok (m, mode_set, args)
+      | Some rl =>
       match args with
       | [] => Panic P_mode_arg
       | arg :: args' =>
@@ -1028,8 +1036,8 @@ Definition mode_char (c : conn) (client target nick : str) (r : rank) (ch : N)
             else Ok (m, mode_set, args')
           else Ok (ms_add_out [err_usernotinchannel client arg target] m, mode_set, args')
       end
-  | None =>
-  if N.eqb ch 108 (* l *) then
+      end
+  | MLimitC =>
     if if_half then
       let params1 := match ms_limit_entry m with
                      | Some e => remove_first_sub e (ms_params m) | None => ms_params m end in
@@ -1055,7 +1063,7 @@ Definition mode_char (c : conn) (client target nick : str) (r : rank) (ch : N)
                ms_limit_entry := None; ms_key_entry := ms_key_entry m; ms_out := ms_out m |},
             mode_set, args)
     else Ok (m, mode_set, args)
-  else if N.eqb ch 107 (* k *) then
+  | MKeyC =>
     if if_half then
       let params1 := match ms_key_entry m with
                      | Some e => remove_first_sub e (ms_params m) | None => ms_params m end in
@@ -1077,7 +1085,7 @@ Definition mode_char (c : conn) (client target nick : str) (r : rank) (ch : N)
                ms_limit_entry := ms_limit_entry m; ms_key_entry := None; ms_out := ms_out m |},
             mode_set, args)
     else Ok (m, mode_set, args)
-  else if in_chars ch "imtns" then
+  | MFlagC =>
     if if_half then
       Ok ({| ms_chan := ch_set_modes (cm_set_flag ch mode_set (ch_modes (ms_chan m))) (ms_chan m);
              ms_set := remove_char ch (ms_set m) ++ (if mode_set then [ch] else []);
@@ -1085,8 +1093,8 @@ Definition mode_char (c : conn) (client target nick : str) (r : rank) (ch : N)
              ms_params := ms_params m; ms_limit_entry := ms_limit_entry m;
              ms_key_entry := ms_key_entry m; ms_out := ms_out m |}, mode_set, args)
     else Ok (m, mode_set, args)
-  else Ok (m, mode_set, args)
-  end end.
+  | MOtherC => Ok (m, mode_set, args)
+  end.
 
 Fixpoint mode_chars (c : conn) (client target nick : str) (r : rank) (cs : str)
          (mode_set : bool) (args : list str) (m : mstate) : res mstate :=
